@@ -606,6 +606,11 @@ class Length(object):
                 self.amount = None
                 self.units = None
                 return
+            if isinstance(value, Length):
+                # The text form of a Length keeps twelve decimals of the amount: copy the fields themselves.
+                self.amount = value.amount
+                self.units = value.units
+                return
             s = str(value)
             for m in REGEX_LENGTH.findall(s):
                 self.amount = float(m[0])
